@@ -19,6 +19,7 @@
     encoding/json/decode.go: `object`, `array`, `literalStore`, `Time.UnmarshalJSON`.
 -/
 import WtfModel.Basic.Bytes
+import WtfModel.Gen.History
 namespace Wtf.History
 
 structure Entry where
@@ -85,8 +86,8 @@ def add (s : State) (e : Entry) : Except Panic State :=
 
 /-! ### Views -/
 
-/-- `if limit <= 0 { limit = 10 }` -/
-def effLimit (limit : Int) : Nat := if limit ≤ 0 then 10 else limit.toNat
+/-- `if limit <= 0 { limit = N }`, N regenerated (`Gen.History.viewDefault`) -/
+def effLimit (limit : Int) : Nat := if limit ≤ 0 then Gen.History.viewDefault else limit.toNat
 
 /-- the loop of `GetRecentQueries` over the queries, newest first -/
 def recentLoop (lim : Nat) : List Bytes → List Bytes → List Bytes
